@@ -1,4 +1,5 @@
 import Irismod.Props.C01
+import Irismod.Proofs.CoinswapMonitor
 open Irismod Irismod.Sdk Irismod.Coinswap Irismod.Spec.C01 Irismod.Props.C01
 #print axioms isqrt_spec
 #print axioms input_price_rule
@@ -14,6 +15,8 @@ open Irismod Irismod.Sdk Irismod.Coinswap Irismod.Spec.C01 Irismod.Props.C01
 #print axioms share_value_mono_run
 #print axioms share_value_every_step
 #print axioms Irismod.Proofs.Coinswap.ck_eq_chkInt
+#print axioms Irismod.Proofs.CoinswapMonitor.c01_monitor_sound
+#print axioms Irismod.Proofs.CoinswapMonitor.price_monitor_sound
 
 /-- a concrete non-trivial history: create two pools, trade (single, routed, exact-out), add,
 one-sided add, donate, one-sided remove, remove -/
